@@ -428,12 +428,27 @@ def strip_own_generics(name):
     return name
 
 
+def _no_generics(n):
+    prev = None
+    while prev != n:
+        prev = n
+        n = re.sub(r"::<[^<>]*>", "", n)
+    return n
+
+
 def call_name(t):
     """Most specific printable name of a call terminator's callee (a moved function under the name the rules know)."""
     n = t.get("callee_full") or t.get("callee_path") or t.get("callee_ty") or "?"
     b = strip_own_generics(n)      # a function of the crate is named without its own generic arguments
-    if ALIASES and b in ALIASES:
-        return ALIASES[b]
+    if ALIASES:
+        if b in ALIASES:
+            return ALIASES[b]
+        nb = _no_generics(b)        # (a call site prints `Type::<'_>::f` where the definition is `Type::<'h>::f`)
+        for k_, v_ in ALIASES.items():
+            if _no_generics(k_) == nb:
+                return v_
+    if TWINS and b in TWINS and not t.get("no_twin"):      # (no_twin: the call inside the known function whose body the twin is)
+        return TWINS[b]
     return b
 
 
@@ -660,6 +675,8 @@ def short_name(s):
 
 
 ALIASES = {}       # function name in the analysed tree -> the name the rules know it by (set when Facts are loaded)
+TWINS = {}         # name of a later-added function that computes exactly what a known function computes (a by-reference / by-slice
+                   # variant written next to it) -> the known function's name (common.find_twins, set per run)
 
 
 def _aliases(names):
@@ -698,12 +715,147 @@ def _aliases(names):
     return out
 
 
+_VOCSIGS = None
+
+
+def vocabulary_sigs():
+    """rules/vocabulary_sigs.json (tools/gen_vocab_sigs): parameter names / types of the known functions, fields of the known structs"""
+    global _VOCSIGS
+    if _VOCSIGS is None:
+        import os
+        try:
+            with open(os.path.join(os.path.dirname(__file__), "vocabulary_sigs.json")) as fh:
+                _VOCSIGS = json.load(fh)
+        except (OSError, ValueError):
+            _VOCSIGS = {"functions": {}, "adts": {}}
+    return _VOCSIGS
+
+
+def _renamed_functions(functions):
+    """{present name: known name} for private functions that were only *renamed*: a known function (not a trait method) is gone,
+    and in the same impl / module there is exactly one function the rules do not know with the same parameter and return types
+    (and no other missing known function has that signature).  The function is analysed under the known name — the rules are
+    checked against its body as it is, so a wrong guess can only produce a report, never hide one."""
+    ref = vocabulary_sigs()["functions"]
+    if not ref:
+        return {}
+    present = {f["name"]: f for f in functions if f.get("kind") != "Closure"}
+    import os
+    try:
+        with open(os.path.join(os.path.dirname(__file__), "vocabulary.txt")) as fh:
+            voc = set(l.rstrip("\n") for l in fh if l.strip())
+    except OSError:
+        return {}
+
+    def sig_of(f):
+        argc = f.get("argc", 0)
+        return (tuple(f["locals"][i]["ty"] for i in range(1, argc + 1)), f["locals"][0]["ty"])
+
+    def scope(n):
+        return re.sub(r"::<[^<>]*>", "", n).rsplit("::", 1)[0]
+    missing = {}
+    for n, r in ref.items():
+        if n in present or n.startswith("<"):
+            continue
+        missing.setdefault((scope(n), tuple(r["tys"]), r["ret"]), []).append(n)
+    unknown = {}
+    for n, f in present.items():
+        if n in voc or n.startswith("<") or f.get("exp"):
+            continue
+        unknown.setdefault((scope(n),) + sig_of(f), []).append(n)
+    out = {}
+    for k, ms in missing.items():
+        us = unknown.get(k, [])
+        if len(ms) == 1 and len(us) == 1:
+            out[us[0]] = ms[0]
+    return out
+
+
+def _canonical_names(j):
+    """Parameters and struct fields that were only renamed are read under the names the rules know (rules/vocabulary_sigs.json):
+    a parameter of a known function by its position (types unchanged), a field of a known struct by its index (same number of
+    fields, same type at that index, the known name not in use elsewhere in the struct).  Rewrites the fact base in place."""
+    ref = vocabulary_sigs()
+    # ---- parameters
+    by_key = {}
+    for f in j["functions"]:
+        by_key[f["key"]] = f
+    closures_of = {}
+    for c in j.get("closures", []):
+        closures_of.setdefault(c.get("root"), []).append(c.get("key"))
+    for f in j["functions"]:
+        r = ref["functions"].get(f["name"])
+        if not r or f.get("kind") == "Closure":
+            continue
+        argc = f.get("argc", 0)
+        if argc != len(r["args"]) or [f["locals"][i]["ty"] for i in range(1, argc + 1)] != r["tys"]:
+            continue
+        ren = {}
+        used = set(d["name"] for d in f.get("debug", []))
+        for d in f.get("debug", []):
+            a = d.get("arg")
+            if a and 1 <= a <= argc and d.get("p") and not d["p"]["pj"]:
+                want = r["args"][a - 1]
+                if want and d["name"] != want and want not in used and d["name"] not in ren:
+                    ren[d["name"]] = want
+        if not ren:
+            continue
+        for d in f.get("debug", []):
+            if d.get("arg") and d["name"] in ren:
+                d["name"] = ren[d["name"]]
+        f.setdefault("renamed_params", {}).update(ren)
+        for ck in closures_of.get(f["key"], []):
+            c = by_key.get(ck)
+            if c:
+                for d in c.get("debug", []):
+                    if d["name"] in ren and d.get("p") and d["p"]["pj"]:      # (a captured variable of the parent)
+                        d["name"] = ren[d["name"]]
+    # ---- fields
+    fmap = {}
+    for a in j.get("adts", []):
+        rf = ref["adts"].get(a.get("path"))
+        if not rf or str(a.get("kind")).lower() != "struct" or not a.get("variants"):
+            continue
+        cur = a["variants"][0]["fields"]
+        if len(cur) != len(rf):
+            continue
+        cur_names = [fl["name"] for fl in cur]
+        m = {}
+        for i, fl in enumerate(cur):
+            want, wty = rf[i]
+            if fl["name"] != want and want not in cur_names and fl["ty"]["s"] == wty and fl["name"] not in [x[0] for x in rf]:
+                m[fl["name"]] = want
+        if m:
+            fmap[a["path"]] = m
+            for fl in cur:
+                if fl["name"] in m:
+                    fl["name"] = m[fl["name"]]
+    if fmap:
+        def walk(o):
+            if isinstance(o, dict):
+                if o.get("k") == "field" and o.get("adt") in fmap and o.get("n") in fmap[o["adt"]]:
+                    o["n"] = fmap[o["adt"]][o["n"]]
+                if o.get("k") == "aggregate" and o.get("path") in fmap and o.get("field_names"):
+                    o["field_names"] = [fmap[o["path"]].get(n, n) for n in o["field_names"]]
+                for v in o.values():
+                    if isinstance(v, (dict, list)):
+                        walk(v)
+            elif isinstance(o, list):
+                for v in o:
+                    if isinstance(v, (dict, list)):
+                        walk(v)
+        walk(j["functions"])
+        j["renamed_fields"] = fmap
+
+
 class Facts:
     def __init__(self, path):
         with open(path) as fh:
             self.j = json.load(fh)
         global ALIASES
         ALIASES = _aliases([f["name"] for f in self.j["functions"]])
+        for k_, v_ in _renamed_functions(self.j["functions"]).items():
+            ALIASES.setdefault(k_, v_)
         self.aliases = dict(ALIASES)
         self.fns = {}
         self.by_name = defaultdict(list)
@@ -713,6 +865,11 @@ class Facts:
                     f["alias_of"] = f["name"]
                     f["name"] = new_ + f["name"][len(old_):]
                     break
+        try:
+            _canonical_names(self.j)
+        except Exception:
+            pass
+        for f in self.j["functions"]:
             fn = Fn(f, self)
             self.fns[fn.key] = fn
             self.by_name[fn.name].append(fn)
